@@ -9,6 +9,8 @@ E1 = "E1 bounded-exhaustive configuration enumeration vs Go reference model"
 E2 = "E2 explicit-state search over API histories on real objects (replay-built successors)"
 E3 = "E3 preemption-bounded controlled scheduler + free-running -race pass"
 
+PROMOTED = {"C03","C04","C05","C10","C12","C14","C16","C17","C18"}
+SCALARARG = {"C02","C03","C06","C18"}
 SWEPT = {"C01","C02","C03","C04","C05","C06","C07","C11","C12","C13","C14","C15","C16","C17","C19"}
 
 CHECKS = {
@@ -108,6 +110,10 @@ def main():
         if pid in SWEPT:
             tech += "; plus exhaustive length sweeps (every length 1..40/300, powers of two with neighbours, integer constants of the library's current source), grid sweeps over pairs/triples of medium sizes and near-threshold element counts, and soak histories with garbage collections, all against the same reference model (DESIGN 9.7-9.9)"
             note += " Sweeps: one long dimension at a time, medium pairs/triples, code-derived sizes; not every shape."
+        if pid in PROMOTED:
+            note += " The quick command runs the thorough bounds of this property (they take under about half a minute); the thorough command adds the deep shape set (sizes up to 4/5/8 in ranks <= 4/3/2) where the check enumerates the standard shape set (DESIGN 9.11)."
+        if pid in SCALARARG:
+            tech += "; scalar arguments (factors, exponents, constants, distribution parameters) also from a list of values that no type narrower than float64 holds (DESIGN 9.11)"
         checks.append({
             "property_id": pid,
             "quick_cmd": "/verif/run.sh %s quick" % pid,
